@@ -227,16 +227,27 @@ def unit_excel_workbooks():
                     for ncols in range(1, 4):
                         yield [[alpha[(r * 3 + c_ * 2 + nrows) % len(alpha)] for c_ in range(ncols)] for r in range(nrows)]
                 yield [["x", "y", "z"], ["1", "2", "3"]]
+                yield "write_rows", [["x", "y"], ["1", "2"], ["", "z"]]          # the same through write_rows()
+                # what the file format cannot hold (a cell of more than 32767 characters, more than 16384 columns) is refused, never cut off silently
+                yield [["a" * 32767, "b"]]
+                yield [["a" * 32768, "b"]]
+                yield [["c"] * 16384]
+                yield [["c"] * 16385]
             def rt_check(table):
+                from cutplace import errors
                 n[0] += 1; path = os.path.join(tmp, "r%d.xlsx" % n[0])
-                with rowio.XlsxRowWriter(path) as w:
-                    for r_ in table: w.write_row(r_)
+                try:
+                    with rowio.XlsxRowWriter(path) as w:
+                        if table[0] == "write_rows": table = table[1]; w.write_rows(table)
+                        else:
+                            for r_ in table: w.write_row(r_)
+                except errors.DataFormatError: return None        # refused by the writer: nothing claimed to be written
                 back = list(rowio.excel_rows(path))
                 # trailing all-empty columns/rows are not stored by the xlsx format: compare modulo that padding rule
                 width = max(len(r) for r in table)
                 exp = [r + [""] * (width - len(r)) for r in table]
                 return None if back == exp else {"expected": exp, "observed": back}
-            res.append(sweep("C16/workbooks/XlsxRowWriter round trip", rt_cases(), rt_check, "audit", "string tables of 1-4 rows x 1-3 columns over 9 cell texts", function="rowio.XlsxRowWriter + excel_rows", unit="C16.workbooks", props=["C16"]))
+            res.append(sweep("C16/workbooks/XlsxRowWriter round trip", rt_cases(), rt_check, "audit", "string tables of 1-4 rows x 1-3 columns over 9 cell texts, write_rows(), cells and rows at / beyond the limits of the file format", function="rowio.XlsxRowWriter + excel_rows", unit="C16.workbooks", props=["C16"]))
             # fault injection: the raise-set assumed for xlrd.open_workbook
             base = os.path.join(tmp, "base.xlsx"); build(base, [[[("s", "a"), ("n", 1)], [("s", "b"), ("n", 2)]]])
             data = open(base, "rb").read()
